@@ -234,7 +234,13 @@ theorem addOpt_origin (r : RState) (og : Option Name) (o : EOpt) (pad a b : Nat)
       | .ok s => .ok { s with origin := og }
       | .error e => .error e := by
   have hroot : isAbs ([[]] : Name) = true := by simp [isAbs]
-  simp only [RState.addOpt]
+  unfold RState.addOpt
+  have hl : ({ r with origin := og } : RState).out.length = r.out.length := rfl
+  rw [hl]
+  by_cases hg : pad ≠ 0 ∧ padLen r.out.length pad a b > 65535
+  · rw [if_pos hg, if_pos hg]; rfl
+  rw [if_neg hg, if_neg hg]
+  simp only [RState.addOptCore]
   split
   · have := addRRset_raw_origin ({ r with wasPadded := true } : RState) og ConstsC03.secADDITIONAL
       (optRRset { o with options := o.options ++ [(ConstsC03.optPADDING,
